@@ -122,16 +122,14 @@ def atom_facts(p, atom, truth):
     return []
 
 
-def pop_loop_ok(P):
-    """the backward search of pop:  i starts at end-1, the loop only does i -= 1 under the guard i > first_segment_offset;
-    hence first_segment_offset <= i <= end-1 is an invariant (given end-1 >= first_segment_offset, i.e. a non-empty path)"""
+POP_LOOP_FN = [None]
+
+
+def _loop_shape(b):
     from .symex import loop_info
-    b = P.bodies.get(PRE + 'pop')
-    if b is None:
-        return False, 'pop not found'
     loops = loop_info(b)
     if len(loops) != 1:
-        return False, f'{len(loops)} loops in pop (1 expected)'
+        return False, f'{len(loops)} loops (1 expected)'
     (h, (blocks, assigned)), = loops.items()
     subs, gts = 0, 0
     for bi in blocks:
@@ -149,8 +147,30 @@ def pop_loop_ok(P):
     return True, ''
 
 
+def pop_loop_ok(P):
+    """the backward search of pop:  i starts at end-1, the loop only does i -= 1 under the guard i > first_segment_offset;
+    hence first_segment_offset <= i <= end-1 is an invariant (given end-1 >= first_segment_offset, i.e. a non-empty path).
+    The loop may sit in pop itself or in a private helper of the handle that pop calls (it is inlined by the path analysis)."""
+    from .symex import loop_info
+    from . import mir as mirmod
+    b = P.bodies.get(PRE + 'pop')
+    if b is None:
+        return False, 'pop not found'
+    cands = [b]
+    if not loop_info(b):
+        for _, t in P.calls(b):
+            c = mirmod.callee(t) or ''
+            cb = P.bodies.get(c)
+            if c.startswith(PRE) and cb is not None and loop_info(cb):
+                cands = [cb]
+                break
+    ok, why = _loop_shape(cands[0])
+    POP_LOOP_FN[0] = cands[0]['name'] if ok else None
+    return ok, (why if ok else f'{cands[0]["name"].rsplit("::", 1)[-1]}: {why}')
+
+
 def loop_facts(p, fn, bb, local, s, init, locs):
-    if fn.endswith('::pop'):
+    if fn.endswith('::pop') or (POP_LOOP_FN[0] is not None and fn == POP_LOOP_FN[0]):
         st, e = p.heap['SELF'][1], p.heap['SELF'][2]
         return [s - st, e - 1 - s]
     return []
@@ -184,6 +204,8 @@ def make_root_guarded(P):
 
 
 def run_method(P, fn, arg, follows=('cond', ('has', 'a')), standalone=False):
+    if POP_LOOP_FN[0] is None:
+        pop_loop_ok(P)          # locate the search loop of pop (in pop or in its private helper) for the loop invariant
     model = PathMutModel(P)
     ex = SymExec(P.bodies, lambda n: n.startswith('common::') and not n.startswith('common::parse::'), model.summary)
     ex.atom_facts = atom_facts
